@@ -3,7 +3,7 @@
    are about the model of the expansion phase (tied to the code by comparing expanded forests
    with the implementation on every run); that the catalog of the macro form equals the catalog
    of the textually inlined document is additionally checked metamorphically on the implementation. *)
-From JS Require Import Base Bytes Scanner Directive Core Expand C10Proofs PasteInline.
+From JS Require Import Base Bytes Scanner Directive Core Expand C10Proofs PasteInline ExpandTerm.
 From JS Require DirectiveTables.
 Open Scope Z_scope.
 
@@ -28,6 +28,18 @@ Theorem C10_expansion_is_inlining :
     exists ys, expand_list enum_check (ex_macros ex) fuel (mkX [] None []) doc = COk ys /\
                x_forest ys = ex_forest ex /\ x_enums ys = [].
 Proof. exact expanded_forest_is_the_inlined_document. Qed.
+
+(* a macro that leads back to itself is rejected INSTEAD of being expanded, and everything the
+   check accepts is expanded in bounded depth: for every forest and macro table the MACRO/PASTE
+   phase does not run out of fuel once the fuel covers the height of the forest plus
+   (number of macros) x (height of the highest macro body + 1).  (The chain of macros under
+   expansion never repeats a macro: a repetition is a PASTE leading back to its own macro.) *)
+Theorem C10_macro_phase_terminates :
+  forall enum_check fuel roots roots' ms,
+    collect_macro roots [] [] = COk (roots', ms) ->
+    (heights roots' + 1 + List.length ms * S (Hb ms) <= fuel)%nat ->
+    compile_macros enum_check fuel roots <> XFuel.
+Proof. exact macro_phase_terminates. Qed.
 
 (* a PASTE of an undefined macro is an error located at that PASTE *)
 Theorem C10_undefined_macro_is_error :
@@ -57,6 +69,7 @@ Proof. exact longer_cycles_are_rejected. Qed.
 
 Print Assumptions C10_macros_are_removed.
 Print Assumptions C10_expansion_is_inlining.
+Print Assumptions C10_macro_phase_terminates.
 Print Assumptions C10_undefined_macro_is_error.
 Print Assumptions C10_recursion_check_sound.
 Print Assumptions C10_longer_cycles_are_rejected.
